@@ -360,3 +360,6 @@ def run(ctx):
     outs = ex.run(bp, [PTR("BAY")], {("BAY", F("bay", "dirty")): PTR("BC0"), ("BC0", F("bay_chan", "next")): NULL})
     ctx.check(not [o for o in outs if o.kind == "ret" and o.ret == INT(0)], "R6.4", "bay_propagate:callback-failure",
               bp.loc(), "bay_propagate succeeds although a callback failed")
+    ctx.rule("R6.7", "the read side of a channel: chan_read yields the value last set / the top of the stack / null for an empty stack, chan_flush clears the dirty mark and remembers that value, value_is_equal compares type and payload (what the multiplexers and the trace writers see)")
+    from rules import infra
+    infra.check_value(ctx, 'R6.7'); infra.check_chan_read(ctx, 'R6.7')
